@@ -22,3 +22,12 @@ Theorem C02_walk_complete :
   forall chk rs p r i vs, In (r, i) rs -> fits chk r p vs -> W chk rs p <> None.
 Proof. exact W_complete. Qed.
 Print Assumptions C02_walk_complete.
+
+(* ---- for every history of operations on the model router ---- *)
+From WF Require Import Model.Router Proofs.ReachP.
+Theorem C02_reachable_no_false_negatives :
+  forall builtins (ops : list op) chk p r i vs,
+    In (r, i) (routes_of (r_root (run builtins ops))) -> fits chk r p vs ->
+    rsearch chk (run builtins ops) p <> None.
+Proof. intros builtins ops chk p r i vs. apply search_complete. apply reachable_inv_b. Qed.
+Print Assumptions C02_reachable_no_false_negatives.
